@@ -185,6 +185,23 @@ def capture_site_rules(ctx: Ctx, rid: str) -> None:
     md = repo.func("compiler:CodeGenerator.macro_def")
     ctx.check("context.eval_ctx.autoescape)" in ast.unparse(md.node), "macro_def:default", "compiler:CodeGenerator.macro_def", "default autoescape", "the emitted Macro must receive context.eval_ctx.autoescape as its default", md.loc())
     mb = repo.func("compiler:CodeGenerator.macro_body")
+    # ... while the function of a recursive loop is called from inside an output expression
+    # (`{{ loop(children) }}`): it returns its captured text marked according to autoescape -
+    # visit_For does not force the plain form, and the default of the parameter is the marking one
+    rbc = ctx.repo.func("compiler:CodeGenerator.return_buffer_contents")
+    a_ = rbc.node.args
+    dflt = dict(zip([x.arg for x in a_.args][len(a_.args) - len(a_.defaults):], [ast.unparse(d_) for d_ in a_.defaults]))
+    vfor = ctx.repo.func("compiler:CodeGenerator.visit_For")
+    rc = [c for c in astq.calls(vfor.node) if astq.callee(c) == "self.return_buffer_contents"]
+    def _eff(c):
+        for k in c.keywords:
+            if k.arg == "force_unescaped":
+                return ast.unparse(k.value)
+        return ast.unparse(c.args[1]) if len(c.args) > 1 else dflt.get("force_unescaped")
+    forced_ = [c for c in rc if _eff(c) != "False"]
+    ctx.check(bool(rc) and not forced_, "loop-function:marked", "compiler:CodeGenerator.visit_For", f"recursive loop function returns unmarked text (default force_unescaped={dflt.get('force_unescaped')})",
+              "the function generated for a recursive loop must return its buffer through return_buffer_contents(frame) with force_unescaped False (Markup under autoescape): returned as plain str, the already escaped output of a nested level is escaped again by the enclosing `{{ loop(children) }}`, once per nesting level",
+              vfor.loc(rc[0]) if rc else vfor.loc())
     ctx.check("self.return_buffer_contents(frame, force_unescaped=True)" in ast.unparse(mb.node), "macro_body:unescaped", "compiler:CodeGenerator.macro_body", "macro function returns plain text", "the macro function itself must return unmarked text (Macro._invoke marks it according to the caller)", mb.loc())
 
 
